@@ -76,19 +76,39 @@ def shape_histories(shapes, rng, budget, start_id=0, max_costly=8):
     rng.shuffle(uniq)
     chosen = uniq
     if budget and len(uniq) > budget:
+        def fam(s):
+            c = s["c"]
+            return "mus" if c.startswith("mus") else "xmi" if c.startswith("xmi") else "misc" if c == "misc" else "trk"
+        chosen, used, costly = [], set(), 0
+
+        def take(s):
+            chosen.append(s)
+            used.add(id(s))
+        # (1) every (family, last item, finisher) pair twice (different containers when possible): a wrong bound of one
+        #     event class is only visible on shapes that end in that event
+        byitem = {}
+        for s in uniq:
+            if s["o"]["res"] != "resource":
+                byitem.setdefault((fam(s), s["items"][-1] if s["items"] else 0, s["fin"]), []).append(s)
+        for g in sorted(byitem):
+            seen_c = set()
+            for s in byitem[g]:
+                if s["c"] not in seen_c and len(seen_c) < 2:
+                    seen_c.add(s["c"])
+                    take(s)
+        # (2) every (container, finisher, predicted outcome) class once; predicted blow-ups cost seconds each: a few only
         groups = {}
         for s in uniq:
             groups.setdefault((s["c"], s["fin"], s["o"]["res"], s["o"]["site"]), []).append(s)
-        chosen, rest, costly = [], [], 0
-        per = max(1, budget // (2 * max(1, len(groups))))
         for g in sorted(groups):
-            if g[2] == "resource":          # predicted blow-ups cost seconds each on the real code: a few representatives only
+            if g[2] == "resource":
                 if costly < max_costly:
-                    chosen += groups[g][:1]
+                    take(groups[g][0])
                     costly += 1
-                continue
-            chosen += groups[g][:per]
-            rest += groups[g][per:]
+            elif not any(id(s) in used for s in groups[g][:1]):
+                take(groups[g][0])
+        # (3) the rest at random
+        rest = [s for s in uniq if id(s) not in used and s["o"]["res"] != "resource"]
         rng.shuffle(rest)
         chosen += rest[:max(0, budget - len(chosen))]
     hs = []
